@@ -3,6 +3,7 @@ package world
 import (
 	"fmt"
 	"net/http"
+	"runtime/debug"
 	"sort"
 	"strings"
 	"sync"
@@ -75,7 +76,7 @@ func (r *RecMetrics) rec(kind, name string, v interface{}, tags []metrics.T) {
 func (r *RecMetrics) EmitCounter(name string, v interface{}, tags ...metrics.T) error {
 	r.rec("counter", name, v, tags)
 	if r.Inner != nil {
-		return r.Inner.EmitCounter(name, v, tags...)
+		return r.forward(name, func() error { return r.Inner.EmitCounter(name, v, tags...) })
 	}
 	return nil
 }
@@ -83,7 +84,7 @@ func (r *RecMetrics) EmitCounter(name string, v interface{}, tags ...metrics.T) 
 func (r *RecMetrics) EmitGauge(name string, v interface{}, tags ...metrics.T) error {
 	r.rec("gauge", name, v, tags)
 	if r.Inner != nil {
-		return r.Inner.EmitGauge(name, v, tags...)
+		return r.forward(name, func() error { return r.Inner.EmitGauge(name, v, tags...) })
 	}
 	return nil
 }
@@ -91,9 +92,35 @@ func (r *RecMetrics) EmitGauge(name string, v interface{}, tags ...metrics.T) er
 func (r *RecMetrics) EmitHistogram(name string, v interface{}, tags ...metrics.T) error {
 	r.rec("histogram", name, v, tags)
 	if r.Inner != nil {
-		return r.Inner.EmitHistogram(name, v, tags...)
+		return r.forward(name, func() error { return r.Inner.EmitHistogram(name, v, tags...) })
 	}
 	return nil
+}
+
+// forward calls the real client. A panic inside it (the real client panics on a label-name set that
+// differs from the first one seen, and on a second registration of a name) would kill a real node
+// on whatever goroutine emitted; here it is recorded and the run goes on, so that the run can be
+// reported and shrunk like any other.
+func (r *RecMetrics) forward(name string, f func() error) (err error) {
+	defer func() {
+		if x := recover(); x != nil {
+			where := ""
+			for _, line := range strings.Split(string(debug.Stack()), "\n") {
+				if strings.Contains(line, "github.com/kubewharf/kubebrain/") && !strings.Contains(line, "/pkg/metrics/") && strings.Contains(line, "(") {
+					where = strings.TrimSpace(line)
+					if i := strings.LastIndex(where, "("); i > 0 {
+						where = where[:i]
+					}
+					break
+				}
+			}
+			r.mu.Lock()
+			r.Panics = append(r.Panics, fmt.Sprintf("%s: %v [emitted by %s]", name, x, where))
+			r.mu.Unlock()
+			err = fmt.Errorf("metric emission panicked: %v", x)
+		}
+	}()
+	return f()
 }
 
 // Inconsistent lists metric names emitted with more than one kind / label-name set.
